@@ -18,7 +18,7 @@ from nflows.transforms.base import InputOutsideDomain
 
 PROPERTY = "C09"
 RULE = (
-    "4 families x bins 1..5 (thorough: 1..6, 8, 12; all three pattern phases; tail bounds up to 1e4) x boxes {unit, [-1,4]x[1,3], [2,3]x[-5,-1], tails 1, 2.5, 32, 1000} x patterns {zero, pat(.,1), pat(.,3), pat(.,8) "
+    "4 families x bins 1..5, 8 (thorough: 1..6, 8, 12, 16; all three pattern phases; tail bounds up to 1e4) x boxes {unit, [-1,4]x[1,3], [2,3]x[-5,-1], tails 1, 2.5, 32, 1000} x patterns {zero, pat(.,1), pat(.,3), pat(.,8) "
     "(linear family: up to 3)} x minimum bin width/height/derivative {default, tall, wide, steep} x dtype {float64, float32} x direction {forward, inverse} on the sorted grid {end-points, every knot and its "
     "+-1..3 ulp neighbours, 8 equispaced points per bin, tail junction +-0..3 ulp, 3 points outside each tail}. One case = one grid "
     "evaluation (about 60-150 points); non-trivial = the grid contains at least one interior knot or a tail junction."
@@ -36,7 +36,7 @@ DT = {"float64": torch.float64, "float32": torch.float32}
 
 
 def bounds(tier, seed):
-    return {"families": list(FAMILIES), "bins": [1, 2, 3, 4, 5] if tier == "quick" else [1, 2, 3, 4, 5, 6, 8, 12], "boxes": list(BOXES) + ["tails %g" % t for t in TAILS], "patterns": ["zero", "pat1", "pat3", "pat8"], "pattern_phase": seed % 3,
+    return {"families": list(FAMILIES), "bins": [1, 2, 3, 4, 5, 8] if tier == "quick" else [1, 2, 3, 4, 5, 6, 8, 12, 16], "boxes": list(BOXES) + ["tails %g" % t for t in TAILS], "patterns": ["zero", "pat1", "pat3", "pat8"], "pattern_phase": seed % 3,
             "points_per_bin": 8 if tier == "quick" else 24}
 
 
@@ -228,7 +228,7 @@ def check_case(case):
 def units(tier, seed):
     us = []
     for fam in FAMILIES:
-        for K in ((1, 2, 3, 4, 5) if tier == "quick" else (1, 2, 3, 4, 5, 6, 8, 12)):
+        for K in ((1, 2, 3, 4, 5, 8) if tier == "quick" else (1, 2, 3, 4, 5, 6, 8, 12, 16)):
             if fam == "quadratic" and K == 1:
                 pass
             for boxname in list(BOXES) + ["tails"]:
